@@ -483,6 +483,7 @@ def l10(ctx, rid):
     'already running' and close() waits for the task."""
     prog = ctx.prog
     n = 0
+    L10, _E = prog.may_reach()
     for f in prog.fns.values():
         for sk in f.calls:
             if sk.name != 'skip' or sk.trait != 'std::iter::Iterator' or len(sk.args) < 2 or sk.bb not in f.reachable():
@@ -507,7 +508,10 @@ def l10(ctx, rid):
             for c in f.calls:
                 if c.bb not in f.reachable() or c.name in ('poll', 'branch', 'from_residual', 'into_future', 'new_unchecked') or c.bb not in f.reach_from([start]):
                     continue
-                if not any(t in prog.fns and t.startswith('blob::') for t in prog.resolve(c)) or not core.returns_result(prog, c):
+                tg = [t for t in prog.resolve(c) if t in prog.fns]
+                direct = any(t.startswith('blob::') for t in tg) and core.returns_result(prog, c)
+                via_helper = any(not t.startswith('blob::') and any(x.startswith('blob::core::Blob::<K>::dump') for x in L10.get(t, ())) for t in tg)
+                if not (direct or via_helper):
                     continue
                 n += 1
                 key = 'progress-past-failure|%s|%s' % (prog.fns[f.id].root, c.name)
